@@ -17,4 +17,14 @@ PROPS = {
                 "a positive quantity and returned an updated order (partial fill or replenishment); distinct = distinct (order, incoming) text",
         "assumptions": ["displayed + hidden <= u64::MAX (the property's quantifier)"],
     },
+    "C06": {
+        "engines": ["seq0"],
+        "footprint": {"match": "*", "state": ["vis", "list"]},
+        "hang_is_violation": True,
+        "nontrivial": r"^match txs=\[[^\]]+\] rem=[1-9]",   # a match that executed something and still had quantity left
+        "rule": "E-seq with zero quantities allowed: random histories (1-40 ops, thorough 1-120) of add/match/cancel/amend/price-move/replace over all "
+                "seven order kinds on a pool of 3-7 ids, then three draining matches; a case is non-trivial when some match executed "
+                "at least one transaction and returned with quantity remaining; distinct = distinct op list",
+        "assumptions": ["ids unique among resting orders; sums below 2^63 (the property's quantifier)"],
+    },
 }
